@@ -451,9 +451,18 @@ def compile_ast(
             if nd.how == "left":
                 df = df.with_columns(__INDEX__=pl.int_range(0, pl.len(), dtype=pl.Int64))
 
+            def float_operands(pred: ColFn) -> ColFn:
+                # `join_where` does not compare an integer with a float
+                if len(pred.args) == 2:
+                    is_float = [types.without_const(arg.dtype()).is_float() for arg in pred.args]
+                    is_int = [types.without_const(arg.dtype()).is_int() for arg in pred.args]
+                    if (is_float[0] and is_int[1]) or (is_int[0] and is_float[1]):
+                        return ColFn(pred.op, *(Cast(arg, types.Float64()) for arg in pred.args))
+                return pred
+
             joined = df.join_where(
                 right_df,
-                *(compile_col_expr(pred, name_in_df) for pred in predicates),
+                *(compile_col_expr(float_operands(pred), name_in_df) for pred in predicates),
             ).with_columns(
                 # polars deletes the right column in equality predicates...
                 # (the restored column keeps the type of the right column)
